@@ -225,8 +225,20 @@ fn mutate(r: &mut Rng, mut d: Vec<u8>, other: &[u8], big: bool) -> Vec<u8> {
             d.insert(i, *r.pick(b"\n\n=-{},<>*[]():/@ \t#$+."));
         }
         9 => {
-            // insert a near-miss line
-            let nm = NEAR_MISS[r.below(NEAR_MISS.len())].as_bytes();
+            // insert a near-miss line (one time in three: a string literal of
+            // the library's own source, alone or in front of some text)
+            let lits = corpus::literals();
+            let lit_line: Vec<u8>;
+            let nm: &[u8] = if !lits.is_empty() && r.chance(1, 3) {
+                let mut l = lits[r.below(lits.len())].1.clone();
+                if r.chance(1, 2) {
+                    l.extend_from_slice(*r.pick(&[&b"@pkgdir share/locale/de"[..], b" x", b"=1", b"-1.0", b"foo bar", b"/cat/pkg", b"1.0"]));
+                }
+                lit_line = l;
+                &lit_line
+            } else {
+                NEAR_MISS[r.below(NEAR_MISS.len())].as_bytes()
+            };
             let pos: Vec<usize> = std::iter::once(0).chain(d.iter().enumerate().filter(|(_, c)| **c == b'\n').map(|(i, _)| i + 1)).collect();
             let p = *r.pick(&pos);
             let mut ins = nm.to_vec();
@@ -287,7 +299,24 @@ fn gen_input(r: &mut Rng, seeds: &[Vec<u8>], big: bool) -> (Vec<u8>, &'static st
             let n = if r.chance(1, 10) { r.below(1000) } else { r.below(40) };
             (rand_unicode(r, n).into_bytes(), "random-unicode")
         }
-        4 | 5 => (NEAR_MISS[r.below(NEAR_MISS.len())].as_bytes().to_vec(), "near-miss"),
+        4 => (NEAR_MISS[r.below(NEAR_MISS.len())].as_bytes().to_vec(), "near-miss"),
+        5 => {
+            let lits = corpus::literals();
+            if lits.is_empty() {
+                (NEAR_MISS[r.below(NEAR_MISS.len())].as_bytes().to_vec(), "near-miss")
+            } else {
+                let mut l = lits[r.below(lits.len())].1.clone();
+                if r.chance(1, 2) {
+                    l.extend_from_slice(*r.pick(&[&b"@pkgdir share/locale/de"[..], b" x", b"=1", b"-1.0", b"foo bar", b"/cat/pkg", b">=1.0", b"\n"]));
+                }
+                if r.chance(1, 4) {
+                    let mut m = lits[r.below(lits.len())].1.clone();
+                    m.extend_from_slice(&l);
+                    l = m;
+                }
+                (l, "source-literal")
+            }
+        }
         6 => (r.pick(seeds).clone(), "seed-verbatim"),
         _ => {
             let mut d = r.pick(seeds).clone();
